@@ -25,6 +25,9 @@ type bctx struct {
 	paths  []PathSpec
 	groups []*jen.Group
 	keyIdx int
+	// fileFunc[i]: group i is the body of a function declaration added directly to the
+	// File (so whatever is added to it later must show up in the File's next render)
+	fileFunc map[int]bool
 }
 
 func (c *bctx) path(i int) string {
@@ -291,6 +294,9 @@ type Env struct {
 	NoFaults  bool   // ignore every writer / fs plan
 	NoFaultOp int    // ignore the plan of this op only (-1 = none); ops after it are not executed
 	UpTo      int    // execute ops [0..UpTo] (-1 = all)
+	// SharedNames, if set, is the one names table (a Go map owned by the caller) that
+	// "hint_names_shared" ops of every job pass to ImportNames (C09).
+	SharedNames map[string]string
 	// RenderHook, if set, is told when a render call starts and ends (C09 probe).
 	RenderHook func(in bool)
 }
@@ -459,6 +465,17 @@ func execBody(r *Recipe, env *Env, shared []*jen.Statement) (hist []Outcome) {
 					m[p.Path] = p.Name
 				}
 				f.ImportNames(m)
+			case "hint_names_shared":
+				if env.SharedNames != nil {
+					f.ImportNames(env.SharedNames)
+				}
+			case "hint_names_alt":
+				m := map[string]string{}
+				for _, pi := range op.P {
+					p := r.Paths[pi%len(r.Paths)]
+					m[p.Path] = fmt.Sprintf("alt%d", pi%len(r.Paths))
+				}
+				f.ImportNames(m)
 			case "hint_alias":
 				f.ImportAlias(r.Paths[op.P[0]%len(r.Paths)].Path, op.S)
 			case "anon":
@@ -475,10 +492,26 @@ func execBody(r *Recipe, env *Env, shared []*jen.Statement) (hist []Outcome) {
 				f.PackageComment(op.S)
 			case "header":
 				f.HeaderComment(op.S)
+			case "cgo":
+				f.CgoPreamble(op.S)
 			case "canonical":
 				f.CanonicalPath = op.S
 			case "add":
 				f.Add(ctx.build(op.Node))
+				if op.Node != nil && op.Node.K == "func" && op.Node.I == 1 && len(ctx.groups) > 0 {
+					if ctx.fileFunc == nil {
+						ctx.fileFunc = map[int]bool{}
+					}
+					ctx.fileFunc[len(ctx.groups)-1] = true // a func's own body group is captured last
+				}
+			case "add_to_group":
+				if len(ctx.groups) > 0 {
+					gi := op.I % len(ctx.groups)
+					if ctx.fileFunc[gi] {
+						o.Obj = "filegroup"
+					}
+					ctx.groups[gi].Add(ctx.build(op.Node))
+				}
 			case "addfrag":
 				if len(b.frags) > 0 {
 					f.Add(b.frags[op.I%len(b.frags)])
